@@ -30,8 +30,9 @@ WIDEN_FILES = {
     "algo/bfs.rs", "algo/bfs_dist.rs", "algo/bfs_pred.rs",
     "algo/dfs.rs", "algo/dfs_dist.rs", "algo/dfs_pred.rs",
     "algo/dijkstra.rs", "algo/dijkstra_dist.rs", "algo/dijkstra_pred.rs",
+    "gen/prng/xoshiro256_star_star.rs",
 }
-WIDEN_RE = re.compile(r"^(\s+)(digraph|queue|stack|heap|visited|dist): ")
+WIDEN_RE = re.compile(r"^(\s+)(digraph|queue|stack|heap|visited|dist|state): ")
 
 
 def use_lines(lines):
@@ -65,7 +66,7 @@ def transform_file(rel, text, flavour, widen):
                     raise SystemExit(
                         f"XFORM-INCONCLUSIVE: {rel}:{i+1}: `std::` outside a use item: {line.strip()}")
         if widen and rel in WIDEN_FILES:
-            if re.match(r"^pub struct \w+<'a, D> \{", line):
+            if re.match(r"^pub struct \w+(<'a, D>)? \{", line):
                 in_struct = True
             elif in_struct and line.startswith("}"):
                 in_struct = False
@@ -104,7 +105,7 @@ unexpected_cfgs = {{ level = "allow", check-cfg = ['cfg(kani)'] }}
 """
 
 
-def generate(flavour, dest, widen=False, map4=False):
+def generate(flavour, dest, widen=False, feats=()):
     """Write <dest>/graaf (transformed crate). Returns the change log."""
     src = os.path.join(REPO, "src")
     gdir = os.path.join(dest, "graaf")
@@ -128,11 +129,11 @@ def generate(flavour, dest, widen=False, map4=False):
             nfiles += 1
             with open(q, "w", encoding="utf-8") as fh:
                 fh.write(new)
+    extra_feats = list(feats)
     feats = []
     if flavour == "f2":
         feats.append("vecmodel")
-    if map4:
-        feats.append("map4")
+    feats = feats + [f for f in extra_feats if f]
     if flavour == "f0":
         deps = ""
     else:
@@ -147,7 +148,7 @@ if __name__ == "__main__":
     fl = sys.argv[1]
     dest = sys.argv[2]
     widen = "--widen" in sys.argv
-    res = generate(fl, dest, widen=widen, map4="--map4" in sys.argv)
+    res = generate(fl, dest, widen=widen, feats=["map4"] if "--map4" in sys.argv else [])
     kinds = {}
     for c in res["changes"]:
         kinds[c["new"].strip()[:40]] = kinds.get(c["new"].strip()[:40], 0) + 1
